@@ -522,6 +522,53 @@ async def path_spelling_case(ctx, nodes: dict, workdir: str, spelling: str) -> N
         shutil.rmtree(base, ignore_errors=True)
 
 
+async def path_reassigned_case(ctx, nodes: dict, workdir: str, index: int) -> None:
+    """`path` is a public field of Persistence: an application that points the object at another file (a backup copy, a
+    new location) and saves gets THAT file written - a fresh object given the new path loads the registry."""
+    from aiomysensors.persistence import Persistence
+
+    case = {"origin": {"kind": "path-reassigned", "index": index}, "registry": snap(nodes)}
+    first = os.path.join(workdir, f"first-{index}.json")
+    second = os.path.join(workdir, f"second-{index}.json")
+    for path in (first, second):
+        if os.path.exists(path):
+            os.unlink(path)
+    persistence = Persistence(nodes, first)
+    before = typed(snap(nodes))
+    ctx.case(("path-reassigned", index, json.dumps(snap(nodes), sort_keys=True, default=str)), sample=None)
+    try:
+        if index % 2:
+            await persistence.save()
+        persistence.path = second
+        await persistence.save()
+    except Exception as exc:  # noqa: BLE001
+        ctx.violation("save-raised", f"saving after the path was re-assigned raised {type(exc).__name__}: {exc!s:.100}", case)
+        return
+    ctx.clause("path-reassigned-roundtrip")
+    loaded: dict = {}
+    try:
+        await Persistence(loaded, second).load()
+    except Exception as exc:  # noqa: BLE001
+        ctx.violation("saved-file-rejected-by-load", f"load of the re-assigned path raised {type(exc).__name__}: {exc!s:.100}", case)
+        return
+    diff = first_difference(before, typed(snap(loaded)))
+    if diff:
+        ctx.violation("roundtrip-differs", f"save after `persistence.path = new` did not write the new file: a fresh object "
+                                           f"given the new path loads something else (differs at {diff})", case)
+    # ... and load() through the same object reads the file it now names
+    reread: dict = {}
+    persistence.nodes = reread
+    try:
+        await persistence.load()
+    except Exception as exc:  # noqa: BLE001
+        ctx.obs("path-reassigned:same-object-load-raised:" + type(exc).__name__)
+        return
+    finally:
+        for path in (first, second):
+            if os.path.exists(path):
+                os.unlink(path)
+
+
 PATH_SPELLINGS = ["nodes.json", "./nodes.json", "sub/nodes.json", "sub/../nodes.json", "~/nodes.json", "~/mysensors/nodes.json",
                   "~nodes.json", "$HOME/nodes.json", "${HOME}/nodes.json", "%TEMP%/nodes.json", "with space/no des.json",
                   "rég/nœds.json", "nodes.json ", ".hidden", "a/b/c/d/e/nodes.json", "nodes", "-nodes.json", "file:nodes.json"]
@@ -656,6 +703,12 @@ def run(ctx) -> None:
                         nodes[3] = Node(3, 17, "", children={0: Child(0, 6, description="", values={47: "", 0: "0"}),
                                                                    1: Child(1, 0)}, sketch_name="", sketch_version="")
                     arun(gateway_roundtrip_case(ctx, nodes, workdir, extra, i))
+            for i in range(6):
+                if ctx.mine(i):
+                    nodes = constructed(rng)
+                    while not nodes:
+                        nodes = constructed(rng)
+                    arun(path_reassigned_case(ctx, nodes, workdir, i))
             for i, spelling in enumerate(PATH_SPELLINGS):
                 if ctx.mine(i):
                     nodes = constructed(rng)
